@@ -44,7 +44,8 @@ fn suggested_fix(
     // Heuristic 2: compute the "missing" factor between the expected
     // and the actual type. Suggest to multiply / divide with the
     // appropriate delta.
-    let delta_type = expected_type.clone() / actual_type.clone();
+    // (no suggestion if the exponents of the quotient cannot be represented)
+    let delta_type = expected_type.clone().try_div(actual_type.clone())?;
 
     let num_factors = delta_type.iter().count();
     if num_factors > 1 {
